@@ -228,6 +228,9 @@ type ScriptedPacketWriter struct {
 	FailAt int
 	// FailN is the byte count the failing call reports together with its error (0..188).
 	FailN int
+	// FailErr replaces ErrScriptedWrite as the error of the failing call (a packet writer may fail with any
+	// value, also with io.EOF or a syscall error).
+	FailErr error
 
 	Got    [][packet.PacketSize]byte
 	Calls  int
@@ -250,9 +253,17 @@ func (w *ScriptedPacketWriter) WritePacket(p *packet.Packet) (int, error) {
 	w.Calls++
 	w.Got = append(w.Got, *p)
 	if i == w.FailAt {
-		return w.FailN, ErrScriptedWrite
+		return w.FailN, w.InjectedErr()
 	}
 	return packet.PacketSize, nil
+}
+
+// InjectedErr is the error the failing call returns.
+func (w *ScriptedPacketWriter) InjectedErr() error {
+	if w.FailErr != nil {
+		return w.FailErr
+	}
+	return ErrScriptedWrite
 }
 
 // Failed reports whether the failing call has happened.
